@@ -111,6 +111,10 @@ def no_panic_oracle(case, trace):
             yield "taking every second item with Iterator::nth(1) does not give items 1, 3, 5, ... of the plain run with the same driver calls: %s" % r[:300]
         if t == "ADAPT" and not r.startswith("same"):
             yield "the run through Iterator's provided methods (by_ref().take(k) + size_hint, or fold) differs from the plain run with the same driver: %s" % r[:300]
+        if t == "REUSE" and not r.startswith("same"):
+            yield "a TestCase that has been iterated before does not behave like a freshly bound one (same script / driver of another layout / after an edit of the public signals): %s" % r[:300]
+        if t == "FREERUN" and not r.startswith("same"):
+            yield "with the generator seeded by the system, resetRandom does not replay the run's own draws: %s" % r[:300]
         if t == "APICHK" and not r.startswith("ok"):
             # the harness also calls the small public functions on values and signals (check / value / is_checked /
             # failing_outputs / is_input ... / Display / Binary) and compares them with each other and with the data
